@@ -5,6 +5,7 @@ import Model.ArgNames
 import Spec.Access
 import Generated.C07Access
 import Model.DeclMods
+import Model.AccessDecl
 import Generated.C07Decl
 import Drivers.Common
 /-! `vm_c07`: line protocol over `Model.Access` / `Model.Types` / `Model.Inst` with the regenerated tables.
@@ -38,6 +39,10 @@ import Drivers.Common
   decl <parser> <kw kw …|->                                  → `refused` | `vis=<pub|prot|priv|none> static=<0|1> readonly=<0|1> final=<0|1> abstract=<0|1>`
          parser = param | class | anon | trait | enum | interface (Generated.C07Decl.parsers; `shapeChanged` if the translator
          did not read it completely); kw = public protected private static readonly final abstract var (Model.DeclMods.parse)
+
+  shadow <H> <name:mod,name:mod,…|-> <scope|-> <recv>       → 1 | 0 | stuck | nomember   (Model.AccessDecl.access with the
+         regenerated fallback relation Generated.C07Access.fallbackRel: which classes declare the one member looked
+         at and with which modifier, the class whose code runs, the class of the receiver object)
 
   H  = `name,ext|-,impl.impl|-;…`     fields of a request are separated by tabs
   W  = `c:name,ext|-,impl|-,abstract 0|1,concrete.m|-,abstr.m|-;…/i:name,ext.ext|-,meths|-;…`
@@ -365,8 +370,26 @@ def declAnswer (pname kws : String) : String :=
         | none => "refused"
         | some m => showMods m
 
+def parseDeclList (s : String) : Option (List (Name × Mod)) :=
+  if s == "-" || s.isEmpty then some [] else
+    (s.splitOn ",").mapM fun it =>
+      match it.splitOn ":" with
+      | [n, m] => do
+        let n ← n.toNat?
+        let m ← parseMod m
+        some (n, m)
+      | _ => none
+
+def declsOf (l : List (Name × Mod)) : Model.AccessDecl.Decls := fun n => (l.find? (fun p => p.1 == n)).map (·.2)
+
 def handle (line : String) : String :=
   match line.splitOn "\t" with
+  | ["shadow", h, ds, sc, r] =>
+    match parseHier h, parseDeclList ds, optName sc, r.toNat? with
+    | some H, some dl, some scope, some r =>
+      (match Model.AccessDecl.access H Generated.C07Access.fallbackRel (declsOf dl) scope r with
+       | .allowed => "1" | .denied => "0" | .stuck => "stuck" | .nomember => "nomember")
+    | _, _, _, _ => "bad-op"
   | "acc" :: h :: rest =>
     match parseHier h, parseSite rest with
     | some H, some s => showOut (decide Generated.C07Access.table H s)
